@@ -28,10 +28,73 @@ def check(prog, run):
     from . import C09
     run.assume("R-rejected is the dependence (taint) reading of C09 restricted to the plotted tables: necessary for 'no marker for rejected poles', not a proof that the right poles are blanked")
     C09.classes_rules(prog, run, C09.CLASSES, {"reach": "R-rejected"}, only=("Fn_poles", "Xi_poles"))
+    run.rule("R-nothing-skipped", "a branch of a diagram that draws nothing is taken only when every kind of pole its sibling branches would draw is absent: "
+             "its test looks at every label (stable 1, unstable 0) for which a sibling draws markers", 0)
     for name in ("stab_plot", "cluster_plot"):
         flatten(prog, run, prog.func("functions.plot." + name))
         markers(prog, run, prog.func("functions.plot." + name))
+        nothing_skipped(prog, run, prog.func("functions.plot." + name))
     cmif(prog, run, prog.func("functions.plot.CMIF_plot"))
+
+
+def _label_consts(e):
+    """the integers k of comparisons `<..> == k` in e (the labels a selection / a test looks at)"""
+    out = set()
+    for c in ast.walk(e):
+        if isinstance(c, ast.Compare) and len(c.ops) == 1 and isinstance(c.ops[0], ast.Eq):
+            for a_ in (c.left, c.comparators[0]):
+                if isinstance(a_, ast.Constant) and isinstance(a_.value, int) and not isinstance(a_.value, bool):
+                    out.add(a_.value)
+        if isinstance(c, ast.Call) and astq.src(c.func).split(".")[-1] == "isin" and len(c.args) == 2 and isinstance(c.args[1], (ast.Tuple, ast.List)):
+            out |= {x.value for x in c.args[1].elts if isinstance(x, ast.Constant) and isinstance(x.value, int)}
+    return out
+
+
+def nothing_skipped(prog, run, fi):
+    f = rel(prog.mods[fi.mod].path)
+
+    def draws(stmts):
+        return [c for s_ in stmts for c in ast.walk(s_) if isinstance(c, ast.Call) and isinstance(c.func, ast.Attribute) and c.func.attr in DRAW]
+
+    def chain(ifn):
+        """[(test or None, body)] of an if / elif / else chain"""
+        out = [(ifn.test, ifn.body)]
+        while len(ifn.orelse) == 1 and isinstance(ifn.orelse[0], ast.If):
+            ifn = ifn.orelse[0]
+            out.append((ifn.test, ifn.body))
+        if ifn.orelse:
+            out.append((None, ifn.orelse))
+        return out
+    n = 0
+    elifs = {id(x.orelse[0]) for x in ast.walk(fi.node) if isinstance(x, ast.If) and len(x.orelse) == 1 and isinstance(x.orelse[0], ast.If)}
+    for ifn in ast.walk(fi.node):
+        if not isinstance(ifn, ast.If) or id(ifn) in elifs:
+            continue
+        br = chain(ifn)
+        if len(br) < 2:
+            continue
+        drawing = [(t, b) for t, b in br if draws(b)]
+        idle = [(t, b) for t, b in br if t is not None and not draws(b) and not astq._terminates(b)]
+        if not drawing or not idle:
+            continue
+        drawn = set()
+        for t, b in drawing:
+            for c in draws(b):
+                for a_ in c.args[:2]:
+                    drawn |= _label_consts(astq.expr_at(fi, c, a_))
+        for t, b in idle:
+            g = astq.expr_at(fi, ifn, t)
+            looked = _label_consts(g)
+            if not looked or not drawn:
+                continue                # not a test on the labels / no label-selected markers: another kind of branch
+            n += 1
+            miss = sorted(drawn - looked)
+            run.ob("R-nothing-skipped", fi.qual, f"`if {astq.src(t, 30)}:` draws nothing", not miss,
+                   f"the test looks at labels {sorted(looked)}, the sibling branches draw markers for labels {sorted(drawn)}" +
+                   ("" if not miss else f": with no pole labelled {sorted(looked)} but poles labelled {miss}, nothing is drawn although the other branch would draw them"),
+                   witness=f"{sorted(looked)}|{sorted(drawn)}", file=f, node=ifn)
+    if not n:
+        run.ob("R-nothing-skipped", fi.qual, "idle branches", True, "no branch that draws nothing is chosen by a test on the labels", file=f, node=fi.node)
 
 
 def calls(prog, run):
